@@ -355,8 +355,10 @@ class Outcome:
             "wall_s": round(time.time() - self.t0, 2),
             "violations": len(self.violations),
         }
-        EVID.mkdir(exist_ok=True)
-        with open(EVID / (self.prop + ".json"), "w") as f:
+        # X.. = specification modules beyond the listed properties: their evidence is kept apart from the properties' files
+        evdir = EVID / "extra" if self.prop.startswith("X") else EVID
+        evdir.mkdir(parents=True, exist_ok=True)
+        with open(evdir / (self.prop + ".json"), "w") as f:
             json.dump(ev, f, indent=1)
         for desc, path in self.violations[:5]:
             print("VIOLATION property=%s replay=%s" % (self.prop, path))
